@@ -501,6 +501,23 @@ Theorem C12_check_chain_rule_sound : forall A csF dg d w obs,
 Proof. exact check_chain_rule_sound. Qed.
 Print Assumptions C12_check_chain_rule_sound.
 
+(* the `fd/*` cells: the exact central difference of the implementation's forward() along h equals J h for the SAME J whose transpose
+   the gradient conjunct of the cell compares with gradient() *)
+Theorem C12_check_fd_sound : forall A csF dg w h obs, check_fd false A csF dg w h obs = true ->
+  exists JG wf, geo_jac dg w = Some JG /\ g_par2fun dg w = Ok wf /\
+    qvec obs = qmatvec (qmatmul (length w) (poly_jac A (pderiv csF) wf) JG) h.
+Proof. exact check_fd_sound. Qed.
+Print Assumptions C12_check_fd_sound.
+
+(* the oracle of the `fd/*` cells is exact: the 7-point central difference recovers the linear coefficient of every polynomial of
+   degree <= 6 (q9 = 9, q45 = 45, q60 = 60 as elements of Qc) -- the degree of t |-> forward(w + t h) for phi_F of degree <= 3 after a
+   geometry map of degree <= 2 *)
+Theorem C12_fd_stencil_exact : forall a0 a1 a2 a3 a4 a5 a6,
+  let F := peval [a0; a1; a2; a3; a4; a5; a6] in
+  (- F (- q3) + q9 * F (- q2) - q45 * F (- (1)) + q45 * F 1 - q9 * F q2 + F q3 = q60 * a1)%Qc.
+Proof. exact stencil7_exact. Qed.
+Print Assumptions C12_fd_stencil_exact.
+
 Theorem C12_pde_ops_ok_sound : forall n (xdep : bool) T xs, pde_ops_ok n xdep T xs = true ->
   forall x, (xdep = true -> In x xs) -> inv_ok n (if xdep then pde_xop T x else T) = true.
 Proof. exact pde_ops_ok_sound. Qed.
@@ -542,6 +559,15 @@ Theorem C12_gradient_is_transposed_jacobian_of_forward_imgF : forall q gf (kt : 
       Ok (OutVec (qvadd (qvadd (poly_forward A csF b wf) (qvscale t (qmatvec J h))) (qvscale (t * t)%Qc (pvec_eval c2 t))) false).
 Proof. exact gradient_is_transposed_jacobian_of_forward_imgF. Qed.
 Print Assumptions C12_gradient_is_transposed_jacobian_of_forward_imgF.
+
+Theorem C12_imgF_jacobian_is_unique : forall dg r c w h v,
+  imgF_geo dg r c -> length w = (r * c)%nat -> length h = (r * c)%nat -> length v = (r * c)%nat ->
+  (exists c2, length c2 = length (img_par2fun r c w) /\
+     forall t, g_par2fun dg (qvadd w (qvscale t h)) =
+               Ok (qvadd (qvadd (img_par2fun r c w) (qvscale t v)) (qvscale (t * t)%Qc (pvec_eval c2 t)))) ->
+  v = qmatvec (img_perm r c) h.
+Proof. exact imgF_jacobian_unique. Qed.
+Print Assumptions C12_imgF_jacobian_is_unique.
 
 Example C12_imgF_example :
   imgF_geo (mkGeo KImage2D 6 6 (CvImgF 2 3) None F2Base None 0) 2 3 /\
